@@ -335,7 +335,12 @@ impl ParallelCacheState {
                 let (transition, changed_slots) =
                     self.get_account_mut(address).newly_created(info.clone(), changed_storage);
                 self.storage.remove(&address);
-                self.contracts.entry(info.code_hash).or_insert_with(|| info.code.clone().unwrap());
+                // A created account can reach the commit without code: the journal clears `code`
+                // when a CREATE starts and a reverted create frame does not restore it, and before
+                // Spurious Dragon `finalize()` marks every touched empty account as created.
+                if let Some(code) = &info.code {
+                    self.contracts.entry(info.code_hash).or_insert_with(|| code.clone());
+                }
                 (Some(transition), Some(changed_slots))
             }
             // Account is touched, but not selfdestructed or newly created.
